@@ -135,9 +135,9 @@ def random_desc(rng, ac: bool):
 def label_text(label) -> str:
     return label._userlabels[-1].label
 
-def derived(s: complex, w: float, opts) -> dict:
+def derived(s: complex, w: float, opts, drv=None) -> dict:
     deg, sin = opts.get('deg', False), opts.get('sin', False)
-    ph = cmath.phase(s); ph += -math.pi / 2 if sin else 0
+    ph = c18.shifted_phase(drv, s, sin) if (sin and drv is not None) else cmath.phase(s)
     return dict(abs=core.q(abs(s)), angle=core.q(float(np.angle(s, deg=deg))), phase=core.q(ph),
                 phase_deg=core.q(math.degrees(ph)), w=core.q(w), w_hz=core.q(w / 2 / math.pi))
 
@@ -196,6 +196,9 @@ def text_oracle(drv, kind, quantity, text, expected: complex, opts, w):
                 else: da = min(da, abs(da - 2 * math.pi))
                 # the angle of the solution carries the conditioning of the solve: 1e-9 relative on the value
                 if da > 0.5 * 10.0 ** -nd + (1e-7 if not deg else 1e-5): fails.append('angle_accuracy')
+                else:
+                    f = c18.angle_digits_failure(max(da - (1e-7 if not deg else 1e-5), 0.0), ang, p, nd)
+                    if f: fails.append(f)
                 if bool(r['deg_sign']) != deg: fails.append('degree_sign')
             if r['abs'] and not r['abs'].get('inf'):
                 read['polar'] = (float(Fraction(r['abs']['value'])), math.radians(a) if deg else a)
@@ -204,7 +207,7 @@ def text_oracle(drv, kind, quantity, text, expected: complex, opts, w):
     case = dict(w=w, sin=opts.get('sin', False), deg=opts.get('deg', False), hertz=opts.get('hertz', False))
     if w != 0 and '(' not in text:
         return ['not_a_time_function'], read
-    fails, _ = c18.sinus_oracle(drv, text, expected, unit, p, case, lo, hi, mod_2pi=True)
+    fails, _ = c18.sinus_oracle(drv, text, expected, unit, p, case, lo, hi)
     head = text.split('·')[0]
     r = drv.call('fmt_parse', unit=unit, s=head)['parsed']
     if r and not r.get('inf'):
@@ -216,6 +219,199 @@ def text_oracle(drv, kind, quantity, text, expected: complex, opts, w):
             fails = [f for f in fails if f not in bad and f.split(':')[-1] not in ('finite_beyond_range', 'saturated_inside_range')] \
                 + ['amplitude_is_rms']
     return fails, read
+
+def time_power_failure(drv, text, truth_peak, name, reverse, w):
+    """the instantaneous power of an element is p(t) = u(t)·i(t) = ½Re(U·I*) + ½|U||I|·cos(2ωt + arg U + arg I)
+    (U, I peak phasors); the label denotes A·fn(ω_text·t + φ) (or a constant).  Returns '' if the two functions agree
+    to the displayed precision, a description of the difference otherwise, None if the power is zero."""
+    U = complex(truth_peak.get_voltage(name)); I = complex(truth_peak.get_current(name))
+    sgn = -1.0 if reverse else 1.0
+    def p_true(t):
+        return sgn * (abs(U) * math.cos(w * t + cmath.phase(U))) * (abs(I) * math.cos(w * t + cmath.phase(I)))
+    scale = abs(U) * abs(I)
+    if scale < 1e-15: return None
+    num = lambda tx, u: (lambda r: None if (r is None or r.get('inf')) else float(Fraction(r['value'])))(drv.call('fmt_parse', unit=u, s=tx)['parsed'])
+    t = c18.parse_sinusoid(drv, text, 'W')
+    if t is None:
+        c = num(text, 'W')
+        if c is None: return 'unreadable'
+        f = lambda tt: c
+    else:
+        A = num(t['amp'], 'W')
+        fq = num(t['freq'], 'Hz' if t['hertz'] else '/s')
+        if A is None or fq is None: return 'unreadable'
+        wt = fq * 2 * math.pi if t['hertz'] else fq
+        ph = 0.0
+        if t['phase']:
+            body = t['phase'][1:-1] if t['deg'] else t['phase'][1:]
+            v = num(body, '')
+            if v is None: return 'unreadable'
+            ph = (math.radians(v) if t['deg'] else v) * (1 if t['phase'][0] == '+' else -1)
+        fn = math.sin if t['fn'] == 'sin' else math.cos
+        f = lambda tt: A * fn(wt * tt + ph)
+    T = 2 * math.pi / w if w else 1.0
+    worst = max(abs(f(k * T / 16) - p_true(k * T / 16)) for k in range(16))
+    if worst <= 3 * 0.5e-2 * 1.5 * scale:       # three labels' worth of half units at 3 digits
+        return ''
+    mean = 0.5 * (U * I.conjugate()).real * sgn
+    return (f'label value at t=0 is {f(0.0):.4g}, p(0) = {p_true(0.0):.4g}; p(t) has mean {mean:.4g} and a part at 2ω of '
+            f'amplitude {0.5 * scale:.4g}; largest difference over a period {worst:.3g}')
+
+# --------------------------------------------------------------------------- the arrow that is drawn and the number next to it
+
+STEP = {'up': (0.0, 1.0), 'down': (0.0, -1.0), 'left': (-1.0, 0.0), 'right': (1.0, 0.0)}
+
+def arrow_of(label):
+    """tail → head of the arrow segment of a placed label symbol, in absolute drawing coordinates"""
+    import schemdraw
+    found = []
+    for sg in label.segments:
+        a = getattr(sg, 'arrow', None)
+        if isinstance(sg, schemdraw.segments.Segment) and a:
+            pts = [np.array(label.transform.transform(pt)) for pt in sg.path]
+            if a == '->': found.append((pts[0], pts[-1]))
+            elif a == '<-': found.append((pts[-1], pts[0]))
+            else: return None
+    return found[0] if len(found) == 1 else None
+
+def impedance_of(e, w):
+    k = e['kind']
+    if k == 'R': return complex(e['value'])
+    if k == 'C': return 1 / (1j * w * e['value']) if w else None
+    if k == 'L': return 1j * w * e['value']
+    if k == 'Z': return complex(*e['value'])
+    return None
+
+def judge_along_arrow(drv, out, label, quantity, text, a, b, phi_a, phi_b, i_ab, kind, opts, w, canon_extra, what, case):
+    """the number written next to an arrow is the quantity *along the arrow*: voltage = φ(tail side) − φ(head side),
+    current = the current through the element in arrow direction; a, b geometric ends of the element, i_ab the true
+    current a → b"""
+    ar = arrow_of(label)
+    if ar is None:
+        out.skip('arrow_not_found'); return
+    tail, head = ar
+    along = float(np.dot(head - tail, np.array(b) - np.array(a)))
+    if abs(along) < 1e-9:
+        out.skip('arrow_perpendicular'); return
+    fwd = along > 0
+    want = (phi_a - phi_b) if quantity == 'voltage' else i_ab
+    if not fwd: want = -want
+    if abs(want) < 1e-12:
+        out.skip('numerically_zero_quantity'); return
+    fails, _ = text_oracle(drv, kind, quantity, text, complex(want), opts, w)
+    # findings of the number format itself are reported by the adapter path; here only the direction matters
+    fails = [f for f in fails if f.split(':')[-1] not in ('omitted_inside_range', 'mantissa_range', 'saturated_inside_range',
+                                                          'finite_beyond_range', 'angle_fewer_digits_than_precision')]
+    if fails and c18.region(want.real if isinstance(want, complex) else want, opts['precision']) == 'rounds_up_to_one':
+        fails = []
+    if fails:
+        neg_ok, _ = text_oracle(drv, kind, quantity, text, complex(-want), opts, w)
+        sym = 'number_against_the_arrow' if not neg_ok else '+'.join(sorted(set(f.split(':')[-1] for f in fails)))
+        out.spec_fail(dict(op='arrow', quantity=quantity, kind=kind, symptom=sym, **canon_extra),
+                      f'{what}: arrow drawn {"along" if fwd else "against"} the element direction a→b, text {text!r}, quantity along '
+                      f'the arrow {want!r}: ' + ', '.join(fails), case, impl=text, spec=dict(want=str(want), arrow=[list(map(float, tail)), list(map(float, head))]),
+                      case=case)
+    else:
+        out.nontrivial(('arrow', quantity, kind, fwd, tuple(sorted(canon_extra.items()))))
+
+def check_arrows(ctx, out, g):
+    """geometric, convention-free: source S from P0 to P1 (direction d1), element X from P1 to P2 (direction d2), wire back,
+    ground at P0, labelled nodes at P1 and P2; every annotation of S and X in every direction"""
+    import CircuitCalculator.SimpleCircuit.Elements as elm
+    import CircuitCalculator.SimpleCircuit.DiagramSolution as ds
+    from CircuitCalculator.SimpleCircuit.DiagramTranslator import circuit_translator
+    drv = ctx.driver
+    if drv is None: return
+    u = 6.0
+    P0 = np.array((0.0, 0.0)); P1 = P0 + u * np.array(STEP[g['d1']]); P2 = P1 + u * np.array(STEP[g['d2']])
+    if np.allclose(P2, P0): return
+    w = g['w']
+    src, x = g['src'], g['x']
+    def mk(e, rev):
+        k = e['kind']; kw = dict(name=e['name'], reverse=rev)
+        if k == 'R': return elm.Resistor(R=e['value'], **kw)
+        if k == 'C': return elm.Capacitor(C=e['value'], **kw)
+        if k == 'L': return elm.Inductance(L=e['value'], **kw)
+        if k == 'Z': return elm.Impedance(Z=complex(*e['value']), **kw)
+        if k == 'V': return elm.VoltageSource(V=e['value'], **kw)
+        if k == 'I': return elm.CurrentSource(I=e['value'], **kw)
+        if k == 'VAC': return elm.ACVoltageSource(V=e['value'], w=e['w'], phi=e['phi'], **kw)
+        raise ValueError(k)
+    try:
+        d = elm.Schematic(unit=u, show=False)
+        S = mk(src, g['srev']); S.at(tuple(P0)); getattr(S, g['d1'])(); d.add(S)
+        X = mk(x, g['xrev']); X.at(tuple(P1)); getattr(X, g['d2'])(); d.add(X)
+        d.add(elm.Line().endpoints(tuple(P2), tuple(P0)))
+        d.add(elm.Ground().at(tuple(P0)))
+        d.add(elm.LabelNode(name='n1').at(tuple(P1))); d.add(elm.LabelNode(name='n2').at(tuple(P2)))
+        circuit = circuit_translator(d)
+    except Exception as e:
+        out.skip(f'schematic_not_built:{type(e).__name__}'); return
+    Zx = impedance_of(x, w)
+    for kind in g['kinds']:
+        opts = dict(g['opts'][kind])
+        try:
+            kw = dict(opts) if kind == 'real' else dict(w=w, **{k: v for k, v in opts.items() if not (kind == 'time' and k == 'precision')})
+            sol = getattr(ds, KIND_CTOR[kind])(d, **kw)
+            truth = truth_solution(circuit, kind, w)
+            phi = {'P0': 0j, 'P1': complex(truth.get_potential('n1')), 'P2': complex(truth.get_potential('n2'))}
+        except Exception as e:
+            out.skip(f'solution_failed:{type(e).__name__}'); continue
+        if Zx is None or Zx == 0: continue
+        i_loop = (phi['P1'] - phi['P2']) / Zx            # through X from P1 to P2, hence through S from P0 to P1
+        for el, a, b, pa, pb, erev, ekind in (('S', P0, P1, 'P0', 'P1', g['srev'], 'source'), ('X', P1, P2, 'P1', 'P2', g['xrev'], 'passive')):
+            name = src['name'] if el == 'S' else x['name']
+            for quantity in ('voltage', 'current'):
+                for arev in (False, True):
+                    for end in ((False, True) if quantity == 'current' else (None,)):
+                        out.evaluations += 1
+                        out.count(f'arrow:{kind}:{quantity}')
+                        case = dict(arrows=g, kind=kind, name=name, quantity=quantity, reverse=arev, end=end)
+                        try:
+                            lab = sol.draw_voltage(name, reverse=arev) if quantity == 'voltage' else sol.draw_current(name, reverse=arev, end=end)
+                            d.add(lab)
+                        except Exception as e:
+                            out.spec_fail(dict(op='arrow', symptom='raises', exc=type(e).__name__, quantity=quantity, kind=kind),
+                                          f'draw_{quantity}({name!r}) raises {type(e).__name__}: {e}', case, impl=repr(e), case=case)
+                            continue
+                        judge_along_arrow(drv, out, lab, quantity, label_text(lab), a, b, phi[pa], phi[pb], i_loop, kind, opts, w,
+                                          dict(element=ekind, element_reversed=bool(erev), annotation_reversed=arev, end=bool(end),
+                                               direction=g['d1'] if el == 'S' else g['d2']),
+                                          f'{kind} {quantity} annotation of {ekind} {name!r} (element reverse={erev}, annotation reverse={arev}'
+                                          + (f', end={end}' if end is not None else '') + f', drawn {g["d1"] if el == "S" else g["d2"]})', case)
+
+def arrow_descs(rng, quick):
+    import itertools
+    combos = [(d1, d2, sr, xr) for d1, d2, sr, xr in itertools.product(STEP, STEP, (False, True), (False, True))
+              if tuple(np.array(STEP[d1]) + np.array(STEP[d2])) != (0.0, 0.0)]
+    if quick:
+        # every direction and every reverse combination occurs; 10 of the 48 drawings per run
+        rng.shuffle(combos)
+        must = []
+        for want in ((False, True), (True, True), (True, False), (False, False)):
+            must.append(next(c for c in combos if (c[2], c[3]) == want))
+        combos = must + [c for c in combos if c not in must][:6]
+    out = []
+    for k, (d1, d2, sr, xr) in enumerate(combos):
+        ac = (k % 2 == 1)
+        p = rng.randint(2, 5)
+        if ac:
+            w = rng.choice([100.0, 1000.0])
+            src = dict(kind='VAC', name='S', value=10.0, w=w, phi=rng.choice([0.0, 0.5, -1.0]))
+            x = rng.choice([dict(kind='R', name='X', value=4.0), dict(kind='C', name='X', value=2e-5 if w == 1000.0 else 2e-4),
+                            dict(kind='L', name='X', value=0.05), dict(kind='Z', name='X', value=[3.0, 4.0])])
+            kinds = ['complex', 'time']
+            opts = dict(complex=dict(precision=p, polar=rng.random() < 0.5, deg=rng.random() < 0.5),
+                        time=dict(precision=3, sin=rng.random() < 0.4, deg=rng.random() < 0.5, hertz=rng.random() < 0.3))
+        else:
+            w = 0.0
+            src = rng.choice([dict(kind='V', name='S', value=10.0), dict(kind='I', name='S', value=2.0)])
+            x = dict(kind='R', name='X', value=4.0)
+            kinds = ['real', 'complex', 'time'] if k % 4 == 0 else ['real']
+            opts = dict(real=dict(precision=p), complex=dict(precision=p, polar=False, deg=False),
+                        time=dict(precision=3, sin=False, deg=False, hertz=False))
+        out.append(dict(d1=d1, d2=d2, srev=sr, xrev=xr, w=w, src=src, x=x, kinds=kinds, opts=opts))
+    return out
 
 # --------------------------------------------------------------------------- direct adapter path
 
@@ -235,13 +431,16 @@ def check_schematic(ctx, out, desc, kinds=('real', 'complex', 'time')):
     for kind in kinds:
         if kind == 'real' and desc['ac']: continue
         p = rng.randint(1, 6)
+        forced = desc.get('opts', {}).get(kind, {})
         if kind == 'real':
-            opts = dict(precision=p); kw = dict(precision=p)
+            opts = dict(precision=forced.get('precision', p)); kw = dict(opts)
         elif kind == 'complex':
             opts = dict(precision=p, polar=rng.random() < 0.5, deg=rng.random() < 0.5)
+            opts.update(forced)
             kw = dict(w=w, **opts)
         else:
             opts = dict(precision=3, sin=rng.random() < 0.4, deg=rng.random() < 0.5, hertz=rng.random() < 0.4)
+            opts.update(forced)
             kw = dict(w=w, sin=opts['sin'], deg=opts['deg'], hertz=opts['hertz'])
         try:
             sol = getattr(ds, KIND_CTOR[kind])(sch, **kw)
@@ -273,7 +472,7 @@ def check_schematic(ctx, out, desc, kinds=('real', 'complex', 'time')):
                     s_signed = q_impl if quantity == 'potential' else (-1 if reverse else 1) * q_impl
                     if drv is None: continue
                     m = drv.call('annot_text', kind=kind, quantity=quantity, reverse=reverse, q=core.qc(q_impl),
-                                 element_reversed=el_rev, **derived(s_signed, w_impl, opts), **opts)
+                                 element_reversed=el_rev, **derived(s_signed, w_impl, opts, drv), **opts)
                     out.traces_validated += 1
                     arrow_impl = label._userparams.get('reverse') if quantity in ('voltage', 'current') else None
                     if m['s'] != text:
@@ -282,16 +481,18 @@ def check_schematic(ctx, out, desc, kinds=('real', 'complex', 'time')):
                         else: out.disagree('annot_text', case, text, m['s'])
                     if m['arrow'] != arrow_impl:
                         out.disagree('annot_arrow', case, arrow_impl, m['arrow'])
-                    if m['spec_arrow'] is not None and bool(arrow_impl) != m['spec_arrow']:
-                        out.spec_fail(dict(op='draw_' + quantity, kind=kind, symptom='arrow_direction', reverse=reverse,
-                                           element_reversed=el_rev),
-                                      f'{quantity} label of {name!r} (reverse={reverse}, element drawn in reverse={el_rev}) has arrow '
-                                      f'flag reverse={arrow_impl}', case, impl=arrow_impl, spec=m['spec_arrow'], case=case)
                     # ---- oracle: the text denotes the solution's quantity with the sign rule
                     expected = core.cfloat(drv.call('annot_text', kind=kind, quantity=quantity, reverse=reverse, q=core.qc(q_true),
                                                     precision=3)['expected'])
                     if kind == 'time' and quantity == 'power':
-                        out.skip('time_domain_power_not_a_single_sinusoid'); continue
+                        bad = time_power_failure(drv, text, truth, name, reverse, w)
+                        if bad:
+                            out.spec_fail(dict(op='draw_power', kind='time', symptom='time_power_is_not_u_times_i', dc=(w == 0)),
+                                          f'time-function power annotation of {name!r} (reverse={reverse}): {text!r} does not denote '
+                                          f'p(t) = u(t)·i(t): {bad}', case, impl=text, spec=bad, case=case)
+                        elif bad is not None:
+                            out.nontrivial(('time_power', reverse))
+                        continue
                     scale = max(abs(q_true), 1e-300)
                     if abs(q_true) < 1e-12 * _scale(truth, quantity, targets):
                         out.skip('numerically_zero_quantity'); continue
@@ -299,7 +500,10 @@ def check_schematic(ctx, out, desc, kinds=('real', 'complex', 'time')):
                     regs = _regions(expected, opts, kind)
                     if fails:
                         # one report per root-cause class
-                        sep = ('omitted_inside_range', 'amplitude_is_rms')
+                        sep = ('omitted_inside_range', 'amplitude_is_rms', 'angle_fewer_digits_than_precision',
+                               'saturated_inside_range', 'finite_beyond_range')
+                        hi_q = 12 if (kind == 'real' and quantity == 'power') else 3
+                        sat_vals = [abs(expected)] if (kind == 'time' or opts.get('polar')) else [expected.real, expected.imag]
                         groups = [[f for f in fails if f.split(':')[-1] == x] for x in sep] + \
                                  [[f for f in fails if f.split(':')[-1] not in sep]]
                         for g in groups:
@@ -307,7 +511,10 @@ def check_schematic(ctx, out, desc, kinds=('real', 'complex', 'time')):
                             out.spec_fail(dict(op='draw_' + quantity, kind=kind, symptom='+'.join(sorted(set(f.split(':')[-1] for f in g))),
                                                clause=sorted(set(f.split(':')[0] for f in g if ':' in f)),
                                                region=regs, precision_ge_4=opts['precision'] >= 4, reverse=reverse,
-                                               cartesian_part_suppressed=any('omitted_inside_range' in f for f in g)),
+                                               cartesian_part_suppressed=any('omitted_inside_range' in f for f in g),
+                                               below_precision_threshold=c18.below_threshold(g, expected, opts['precision'], -6),
+                                               saturation_gap=c18.in_saturation_gap(sat_vals, opts['precision'], hi_q),
+                                               w_zero=(kind == 'time' and w == 0)),
                                           f'{kind} {quantity} of {name!r} (reverse={reverse}): {text!r} displayed for {expected!r}: ' + ', '.join(g),
                                           case, impl=text, spec=dict(failures=g, expected=str(expected)), case=case)
                     else:
@@ -328,7 +535,7 @@ def _regions(expected: complex, opts, kind):
 
 def _tie(drv, s: complex, w, opts):
     p = opts['precision']
-    ph = cmath.phase(s) + (-math.pi / 2 if opts.get('sin') else 0)
+    ph = c18.shifted_phase(drv, s, bool(opts.get('sin')))
     nums = [s.real, s.imag, abs(s), abs(ph), abs(math.degrees(ph)), w, w / 2 / math.pi]
     if any(c18.tie_hit(drv.call('fmt_sf', v=core.q(x), unit='', precision=p)['margins']) for x in nums if x != 0 and math.isfinite(x)):
         return True
@@ -379,6 +586,7 @@ def check_agreement(ctx, out, desc):
             return float(Fraction(r['abs']['value'])), (math.radians(a) if r['deg_sign'] else a)
         c = cartesian(cart[key]); pr = polar(pol[key]); pd = polar(pdeg[key])
         amp = num(tim[key].split('·')[0])
+        if amp is not None: amp = abs(amp)
         if None in (c, pr, pd, amp):
             out.skip('agreement_unreadable'); continue
         if abs(c) < 1e-9: out.skip('agreement_zero'); continue
@@ -395,10 +603,13 @@ def check_agreement(ctx, out, desc):
         if abs(amp - math.sqrt(2) * pr[0]) > rel * amp:
             sym.append('time_amplitude_is_not_peak' if abs(amp - pr[0]) <= rel * amp else 'time_amplitude')
         # a Cartesian text with a single part although both parts of the phasor are expressible with the prefixes
-        suppressed = ('j' not in cart[key] and abs(pr[0] * math.sin(pr[1])) >= 1e-6) or \
-            (cart[key].lstrip('-').startswith('j') and abs(pr[0] * math.cos(pr[1])) >= 1e-6)
+        om_im = 'j' not in cart[key]; om_re = cart[key].lstrip('-').startswith('j')
+        suppressed = (om_im and abs(pr[0] * math.sin(pr[1])) >= 1e-6) or (om_re and abs(pr[0] * math.cos(pr[1])) >= 1e-6)
+        thr = 10.0 ** (-6 + p - 1) * (1 - 1e-9)       # the code's threshold at this precision (open finding)
+        below = (not om_im or abs(pr[0] * math.sin(pr[1])) < thr) and (not om_re or abs(pr[0] * math.cos(pr[1])) < thr)
         for f in fails + sym:
-            out.spec_fail(dict(op='agree', symptom=f, dc=not desc['ac'], cartesian_part_suppressed=suppressed),
+            out.spec_fail(dict(op='agree', symptom=f, dc=not desc['ac'], cartesian_part_suppressed=suppressed,
+                               below_precision_threshold=below),
                           f'annotations of {key[0]} of {key[1]!r} disagree ({f}): cartesian {cart[key]!r}, polar {pol[key]!r}, '
                           f'degrees {pdeg[key]!r}, time {tim[key]!r}' + (f', real {rea[key]!r}' if rea else ''), case, case=case)
         if not fails and not sym:
@@ -442,9 +653,7 @@ def check_power_agreement(ctx, out, desc):
         out.skip(f'schematic_not_built:{type(e).__name__}'); return
     w = desc['w']; p = 4
     kinds = [('complex', 'single_frequency_complex_solution', dict(w=w, precision=p, polar=True), p)]
-    if desc['ac'] and w > 0:
-        # (at w = 0 the time label is the bare magnitude |q|: it carries no sign to compare)
-        kinds.append(('time', 'single_frequency_time_domain_steady_state_solution', dict(w=w), 3))
+    # (the time-function power label is judged against p(t) = u(t)·i(t) in check_schematic, not against ½·U·I*)
     if not desc['ac']:
         kinds.append(('real', 'real_solution', dict(precision=p), p))
     for kind, ctor, kw, prec in kinds:
@@ -537,8 +746,10 @@ def decl_elements(desc):
         t, k = DECL_ELEMENT[e['kind']]
         return {'type': t, 'name': e['name'], k: e['value'], 'reverse': e.get('reverse', False), 'direction': direction}
     out.append(one(els[0], 'up'))
-    for e in els[1:-1]:
+    out.append(dict(type='node', name='n1'))
+    for i, e in enumerate(els[1:-1]):
         out.append(one(e, 'right'))
+        out.append(dict(type='node', name=f'n{i + 2}'))
     out.append(one(els[-1], 'down'))
     out.append(dict(type='line', direction='left', length=max(1, len(els) - 2)))
     out.append(dict(type='ground'))
@@ -554,22 +765,37 @@ def check_declarative(ctx, out, desc, sol_type, params):
     solution = dict(params)
     if sol_type is not None: solution['type'] = sol_type
     solution['voltages'] = [dict(name=n, reverse=(i % 2 == 1)) for i, n in enumerate(names)]
-    solution['currents'] = [dict(name=names[-1]), dict(name=names[0], reverse=True)]
+    solution['currents'] = [dict(name=names[-1]), dict(name=names[0], reverse=True), dict(name=names[1], end=True),
+                            dict(name=names[-1], reverse=True, end=True)]
     solution['powers'] = [dict(name=names[1])]
+    import copy
     data = dict(unit=5, elements=decl_elements(desc), solution=solution)
+    pristine = copy.deepcopy(data)
+    solution = pristine['solution']          # everything below reads the description as it was written
     case = dict(desc=desc, declarative=dict(type=sol_type, params=params))
     out.evaluations += 1
     out.count(f'declarative:{sol_type}')
+    def texts_of(sch):
+        return [(type(l).__name__, label_text(l), l._userparams.get('reverse') if not isinstance(l, elm.PowerLabel) else None)
+                for l in sch.elements if isinstance(l, (elm.VoltageLabel, elm.CurrentLabel, elm.PowerLabel))]
     try:
         with contextlib.redirect_stdout(io.StringIO()):
             sch = create_schematic(data)
+            first = texts_of(sch)
+            label_objs = [l for l in sch.elements if isinstance(l, (elm.VoltageLabel, elm.CurrentLabel, elm.PowerLabel))]
+            # the same description object used a second time (a description is data, not a consumable)
+            second = texts_of(create_schematic(data))
         plt.close('all')
     except Exception as e:
         out.spec_fail(dict(op='create_schematic', solution_type=str(sol_type), symptom='raises', exc=type(e).__name__),
                       f'create_schematic raises {type(e).__name__}: {e}', case, impl=repr(e), case=case)
         return
-    labels = [e for e in sch.elements if isinstance(e, (elm.VoltageLabel, elm.CurrentLabel, elm.PowerLabel))]
-    got = [(type(l).__name__, label_text(l)) for l in labels]
+    if data != pristine or second != first:
+        out.spec_fail(dict(op='create_schematic', solution_type=str(sol_type),
+                           symptom='description_consumed' if data != pristine else 'second_use_differs'),
+                      f'second schematic from the same description differs: first {first}, second {second}; description '
+                      f'{"changed" if data != pristine else "unchanged"}', case, impl=dict(first=first, second=second), case=case)
+    got = [(c, t) for c, t, _ in first]
     if drv is None: return
     lk = drv.call('annot_lookup', type=sol_type if sol_type is not None else 'unknown', keys=sorted(solution.keys()))
     # ---- correspondence: the labels are those of the adapter the model's lookup selects, in the order of the loops
@@ -595,7 +821,7 @@ def check_declarative(ctx, out, desc, sol_type, params):
         sol = truth_solution(circuit, 'time' if (kind == 'time' and lk['peak']) else ('complex' if kind == 'time' else kind), w)
         q = get_q(sol, quantity, name)
         s_signed = (-1 if reverse else 1) * q
-        m = drv.call('annot_text', kind=kind, quantity=quantity, reverse=reverse, q=core.qc(q), **derived(s_signed, w, opts), **opts)
+        m = drv.call('annot_text', kind=kind, quantity=quantity, reverse=reverse, q=core.qc(q), **derived(s_signed, w, opts, drv), **opts)
         tie = tie or _tie(drv, s_signed, w, opts)
         want.append((cls_of[quantity], m['s']))
     out.traces_validated += 1
@@ -623,13 +849,41 @@ def check_declarative(ctx, out, desc, sol_type, params):
         if abs(q_true) < 1e-12 * _scale(truth, quantity, names): continue
         expected = -q_true if reverse else q_true
         fails, _ = text_oracle(drv, spec_kind, quantity, text, expected, sopts, sw)
-        if fails: bad.append((quantity, name, reverse, text, fails))
+        if fails: bad.append((quantity, name, reverse, text, fails, expected))
     if len(got) != len(order): bad.append(('labels', None, None, str(got), ['label_count']))
+    # ---- geometric: the number next to each drawn arrow is the quantity along that arrow (incl. `end: true`)
+    if kind == spec_kind and len(label_objs) == len(order):
+        els = desc['elements']; U = 5.0
+        pts = [np.array((0.0, 0.0)), np.array((0.0, U))]
+        for _ in els[1:-1]: pts.append(pts[-1] + np.array((U, 0.0)))
+        pts.append(pts[-1] + np.array((0.0, -U)))
+        try:
+            phis = [0j] + [complex(truth.get_potential(f'n{i}')) for i in range(1, len(els))] + [0j]
+            j = next(i for i, e in enumerate(els) if impedance_of(e, sw) not in (None, 0))
+            i_loop = (phis[j] - phis[j + 1]) / impedance_of(els[j], sw)
+        except Exception as e:
+            out.skip(f'declarative_geometry:{type(e).__name__}'); i_loop = None
+        if i_loop is not None:
+            ann_iter = [(lst, ann) for lst, _ in lk['loops'] for ann in solution.get(lst, [])]
+            for (quantity, name, reverse), lab, (lst, ann) in zip(order, label_objs, ann_iter):
+                if quantity not in ('voltage', 'current'): continue
+                i = names.index(name)
+                out.evaluations += 1
+                out.count(f'arrow:declarative:{quantity}')
+                judge_along_arrow(drv, out, lab, quantity, label_text(lab), pts[i], pts[i + 1], phis[i], phis[i + 1], i_loop,
+                                  spec_kind, sopts, sw,
+                                  dict(element='source' if i == 0 else 'passive', element_reversed=bool(els[i].get('reverse', False)),
+                                       annotation_reversed=bool(reverse), end=bool(ann.get('end', False)), direction='declarative',
+                                       declared_w_dropped=('w' in params and 'w' not in lk['params'])),
+                                  f'declarative {spec_kind} {quantity} annotation of {name!r} ({ann})', case)
     if bad:
         symptoms = sorted({f.split(':')[-1] for b in bad for f in b[4]})
         out.spec_fail(dict(op='create_schematic', solution_type=str(sol_type), symptom='+'.join(symptoms),
                            selected_kind=str(kind), specified_kind=str(spec_kind),
-                           cartesian_part_suppressed='omitted_inside_range' in symptoms),
+                           cartesian_part_suppressed='omitted_inside_range' in symptoms,
+                           declared_w_dropped=('w' in params and 'w' not in lk['params']),
+                           saturation_gap=any(c18.in_saturation_gap([b[5].real, b[5].imag, abs(b[5])], sopts['precision'], 3) for b in bad if len(b) > 5),
+                           below_precision_threshold=all(c18.below_threshold(b[4], b[5], sopts['precision'], -6) for b in bad if len(b) > 5)),
                       f'solution type {sol_type!r}: ' + '; '.join(f'{b[0]} of {b[1]!r}: {b[3]!r} ({", ".join(b[4])})' for b in bad[:3]),
                       case, impl=got, spec=dict(specified_kind=spec_kind, selected_kind=kind), case=case)
     else:
@@ -651,6 +905,24 @@ CORPUS = [
          dict(kind='R', name='R1', value=100.0, reverse=False, node_after='a'), dict(kind='C', name='C1', value=1e-4, reverse=False)]),
     dict(shape='loop_ccw', unit=5, w=0.0, ac=False, elements=[dict(kind='I', name='Iq', value=0.02, reverse=True),
          dict(kind='R', name='R1', value=47.0, reverse=True, node_after='a'), dict(kind='R', name='R2', value=9.995, reverse=False)]),
+    # quantities within 1e-14 of ±1 (forward / reverse) at precision ≥ 4: the open rounds-up-to-one finding, reached on every run
+    dict(shape='loop', unit=5, w=0.0, ac=False, opts=dict(real=dict(precision=5)),
+         elements=[dict(kind='V', name='Vq', value=0.99999999999999, reverse=False),
+                   dict(kind='R', name='R1', value=0.5, reverse=False, node_after='a'), dict(kind='R', name='R2', value=0.5, reverse=True)]),
+    dict(shape='loop', unit=5, w=0.0, ac=False, opts=dict(real=dict(precision=4)),
+         elements=[dict(kind='I', name='Iq', value=0.99999999999999, reverse=False),
+                   dict(kind='R', name='R1', value=999.99999999999, reverse=False, node_after='a'), dict(kind='R', name='R2', value=1.0, reverse=False)]),
+    # parts exactly in the decade of the zero-suppression threshold: 10 V·cos(1000 t) – 20 kΩ – 50 nF, I_rms = (176.8 + j176.8) µA
+    dict(shape='loop', unit=5, w=1000.0, ac=True, opts=dict(complex=dict(precision=3, polar=False, deg=False)),
+         elements=[dict(kind='VAC', name='Vq', value=10.0, w=1000.0, phi=0.0, reverse=False),
+                   dict(kind='R', name='R1', value=20000.0, reverse=False, node_after='a'), dict(kind='C', name='C1', value=5e-8, reverse=False)]),
+    dict(shape='loop', unit=5, w=1000.0, ac=True, opts=dict(complex=dict(precision=3, polar=False, deg=False), time=dict(sin=True, deg=False, hertz=False)),
+         elements=[dict(kind='VC', name='Vq', value=[3.0, 4.0], reverse=False),
+                   dict(kind='R', name='R1', value=4000.0, reverse=True), dict(kind='R', name='R2', value=6000.0, reverse=False)]),
+    # a phasor on the negative real axis in sine form (±π representatives)
+    dict(shape='loop', unit=5, w=1000.0, ac=True, opts=dict(time=dict(sin=True, deg=False, hertz=False)),
+         elements=[dict(kind='VAC', name='Vq', value=100.0, w=1000.0, phi=0.0, reverse=True),
+                   dict(kind='R', name='E1', value=33.0, reverse=False), dict(kind='R', name='E2', value=21.4, reverse=False)]),
 ]
 
 def run(ctx, out):
@@ -671,6 +943,10 @@ def run(ctx, out):
     for k in range(14 if quick else 120):
         if ctx.time_left() < 30: out.notes.append('agreement cut by budget'); break
         check_agreement(ctx, out, CORPUS[k] if k < 2 else random_desc(rng, ac=(k % 2 == 1)))
+    rng = ctx.rng('arrows')
+    for g in arrow_descs(rng, quick):
+        if ctx.time_left() < 28: out.notes.append('arrow geometry cut by budget'); break
+        check_arrows(ctx, out, g)
     rng = ctx.rng('power')
     for k in range(12 if quick else 150):
         if ctx.time_left() < 25: out.notes.append('power agreement cut by budget'); break
@@ -679,10 +955,10 @@ def run(ctx, out):
     rng = ctx.rng('declarative')
     decl = [('dc', {}), ('real', dict(precision=2)), ('complex', dict(precision=4, polar=True, deg=True)),
             ('single_frequency_time_domain', dict(w=100.0)), ('single_frequency_time_domain', dict(w=100.0, sin=True, hertz=True)),
-            ('nonsense', {}), (None, {}), ('complex', dict(polar=False, bogus=1))]
+            ('nonsense', {}), (None, {}), ('complex', dict(polar=False, bogus=1)), ('complex', dict(w=100.0, precision=3))]
     for k, (ty, params) in enumerate(decl * 2 if quick else decl * 8):
         if ctx.time_left() < 15: out.notes.append('declarative cut by budget'); break
-        ac = ty in ('single_frequency_time_domain',) or (ty == 'complex' and k % 2 == 0)
+        ac = ty in ('single_frequency_time_domain',) or (ty == 'complex' and ('w' in params or k % 2 == 0))
         d = None
         for _ in range(20):
             d = random_desc(rng, ac=ac)
@@ -693,6 +969,8 @@ def run(ctx, out):
 
 def replay(ctx, out, rp):
     case = rp.get('case') or rp.get('input')
+    if isinstance(case, dict) and 'arrows' in case:
+        check_arrows(ctx, out, case['arrows']); return
     if not isinstance(case, dict) or 'desc' not in case:
         raise SystemExit('replay file carries no schematic description')
     if 'declarative' in case:
@@ -701,5 +979,7 @@ def replay(ctx, out, rp):
         check_agreement(ctx, out, case['desc'])
     elif 'power_agreement' in case:
         check_power_agreement(ctx, out, case['desc'])
+    elif 'arrows' in case:
+        check_arrows(ctx, out, case['arrows'])
     else:
         check_schematic(ctx, out, case['desc'], kinds=(case['kind'],))
